@@ -51,6 +51,7 @@ struct Session {
     std::vector<std::string> log;
     int pfalse = 0;           // stress: per-mille of false answers
     int step_us = 0;          // stress: pause inside filtering_step
+    std::atomic<int> free_rc{0};  // run_condition evaluations after the thread was released at the end of a word
     std::mt19937_64 thr_rng;
 
     void ev(const std::string& s) { std::lock_guard<std::mutex> lk(logm); log.push_back(s); }
@@ -67,13 +68,15 @@ struct Session {
             return true;
         }
         if (k == 6) ev("exit");
-        if (md == Free) return true;
+        // released at the end of a word: run_condition stays true; a conforming thread ends within 15 moves
+        // (C09_bounded_exit), so the 64th evaluation only ever happens to a thread that ignores teardown
+        if (md == Free) return k != 9 || ++free_rc < 64;
         std::unique_lock<std::mutex> lk(m);
-        if (mode.load() == Free) return true;
+        if (mode.load() == Free) return k != 9 || ++free_rc < 64;
         parked_at = k; ++seq;
         cv.notify_all();
         cv.wait(lk, [this] { return grant || mode.load() == Free; });
-        bool a = grant ? answer : true;
+        bool a = grant ? answer : (k != 9 || ++free_rc < 64);
         grant = false; parked_at = 0;
         return a;
     }
@@ -112,7 +115,7 @@ protected:
         s->point(8);
         if (s->step_us > 0) std::this_thread::sleep_for(std::chrono::microseconds(s->step_us));
     }
-    bool run_condition() override { return s->point(9); }
+    bool run_condition() override { bool a = s->point(9); s->ev(a ? "rc1" : "rc0"); return a; }
 };
 
 // ---------------------------------------------------------------- wait() with a time-out
@@ -244,8 +247,10 @@ static void run_word(const vf::Case& c) {
     // end of word
     bool stuck_in_word = (R.loc == "stuck");
     int exited = 0;
+    std::string end_loc = R.loc;
     if (!stuck_in_word) {
         if (R.loc == "2") R.thread_move(true);
+        end_loc = R.loc;
         if (R.loc != "X" && R.loc != "stuck") {
             unsigned long s0 = S->current_seq();
             { vf::Entry e("FilteringAlgorithm::teardown"); P->teardown(); }
@@ -260,6 +265,7 @@ static void run_word(const vf::Case& c) {
     { std::lock_guard<std::mutex> lk(S->logm); trace = S->log; }
     trace.insert(trace.begin(), "|");
     put_word("obs", observations);
+    put_word("end_loc", std::vector<std::string>{end_loc});
     put_word("trace", trace);
     std::fprintf(OUT, "int exited %d\n", exited);
     std::fprintf(OUT, "int final_running %d\n", P->is_running() ? 1 : 0);
